@@ -14,8 +14,9 @@ import vlib
 import progs
 import specdiff
 
-THEOREM_MODULES = ["Yarel.Props.C18", "Yarel.Props.ModelLimits"]
-REQUIRED_THEOREMS = ["range_iter_spec", "vec_iter_index_based", "vec_mutation_never_panics", "chain_spec", "map_filter_collect_reduce_spec",
+THEOREM_MODULES = ["Yarel.Props.C18", "Yarel.Props.ModelLimits", "Yarel.Props.SpecIteration"]
+REQUIRED_THEOREMS = ["for_calls_iter_once", "for_keeps_iterator_and_asks_next", "for_next_value_runs_body", "for_sentinel_ends_loop",
+                     "for_body_end_asks_next_again", "break_leaves_no_state", "range_iter_spec", "vec_iter_index_based", "vec_mutation_never_panics", "chain_spec", "map_filter_collect_reduce_spec",
                      "for_loop_spec", "break_leaves_no_state", "loops_independent", "string_iter_spec", "tuple_iter_spec"]
 LEVEL = "proof"
 ASSUMPTIONS = [
